@@ -61,6 +61,15 @@ class _CircuitAttacher(object):
         target_ep._get_address().addCallback(self._add_real_target, circuit, d)
         return d
 
+    def _forget(self, d):
+        """
+        Drop the pending source-address entry (if there still is one)
+        belonging to the Deferred add_endpoint() returned.
+        """
+        for k, (_, pending_d) in list(self._circuit_targets.items()):
+            if pending_d is d:
+                del self._circuit_targets[k]
+
     def _add_real_target(self, real_addr, circuit, d):
         # joy oh joy, ipaddress wants unicode, Twisted gives us bytes...
         real_host = maybe_ip_addr(str(real_addr.host))
@@ -148,8 +157,16 @@ class TorCircuitEndpoint(object):
         yield self._circuit.when_built()
         connect_d = self._target_endpoint.connect(protocol_factory)
         attached_d = attacher.add_endpoint(self._target_endpoint, self._circuit)
-        proto = yield connect_d
-        yield attached_d
+        try:
+            proto = yield connect_d
+            yield attached_d
+        except Exception:
+            # this connection is over (the SOCKS connection may have
+            # failed before Tor ever announced our stream): don't leave
+            # the source-address mapping behind for whoever gets that
+            # local port next
+            attacher._forget(attached_d)
+            raise
         return proto
 
 
